@@ -77,18 +77,30 @@ Definition chk_unstamped (b : schema) (k : nat) : bool :=
     && list_eqb String.eqb (ok_stmts_of (snd (opened (unstamped_db b k r)))) (raw_stmts (skipn k steps))
     && list_eqb String.eqb (stmts_of (snd (opened (unstamped_db b k r)))) (raw_stmts steps)) unstamped_revs.
 
-Lemma chk_unstamped_base : forallb (chk_unstamped base_schema) (seq 0 (List.length steps)) = true.
+(* exact_upto (Gen.v): the first revision at which an unstamped file is NOT migrated by exactly the
+   missing steps; below it, and up to the current revision, it is *)
+Definition exact_range : nat := Nat.min exact_upto (S (List.length steps)).
+
+Lemma chk_unstamped_base : forallb (chk_unstamped base_schema) (seq 0 exact_range) = true.
 Proof. vm_compute. reflexivity. Qed.
+
+(* exact_upto is sharp: if it is a revision at all, exactness fails there (a statement of an applied
+   step takes effect again) *)
+Lemma exact_upto_sharp :
+  Nat.leb exact_upto (List.length steps) = true ->
+  negb (list_eqb String.eqb (ok_stmts_of (snd (opened (unstamped_db base_schema exact_upto RNoTable))))
+                            (raw_stmts (skipn exact_upto steps))) = true.
+Proof. vm_compute. first [ reflexivity | discriminate ]. Qed.
 
 Lemma unstamped_in (r : rev) : unstamped r -> In r unstamped_revs.
 Proof. unfold unstamped, unstamped_revs. simpl. intuition. Qed.
 
-Lemma reaches_current_unstamped (k : nat) (r : rev) : k < List.length steps -> unstamped r ->
+Lemma reaches_current_unstamped (k : nat) (r : rev) : k < exact_upto -> k <= List.length steps -> unstamped r ->
   d_schema (cur (fst (opened (unstamped_db base_schema k r)))) = current_schema base_schema
   /\ ok_stmts_of (snd (opened (unstamped_db base_schema k r))) = raw_stmts (skipn k steps)
   /\ stmts_of (snd (opened (unstamped_db base_schema k r))) = raw_stmts steps.
 Proof.
-  intros Hk Hr. pose proof (forallb_seq _ _ _ chk_unstamped_base k ltac:(lia)) as H.
+  intros Hk Hk2 Hr. pose proof (forallb_seq _ _ _ chk_unstamped_base k ltac:(unfold exact_range; lia)) as H.
   unfold chk_unstamped in H. rewrite forallb_forall in H. specialize (H r (unstamped_in r Hr)).
   apply andb_true_iff in H. destruct H as [H H3]. apply andb_true_iff in H. destruct H as [H1 H2].
   split; [apply schema_beq_eq; exact H1|]. split; apply list_eqb_string_eq; assumption.
